@@ -643,44 +643,61 @@ def font_objects(fs: Dict[str, Any], n0: int) -> Tuple[Dict[int, Any], int]:
 ALL_CODES = b"BT /F1 1 Tf <" + bytes(range(256)).hex().encode() + b"> Tj ET"
 
 
-def fonts_pdf(fss: List[Dict[str, Any]]) -> bytes:
+def fonts_pdf(fss: List[Dict[str, Any]]) -> Tuple[bytes, List[int]]:
+    """One page per font, followed by a second visit of every third font (same font OBJECT again, in reverse
+    order), so that PDFResourceManager's font cache is exercised.  Returns (pdf, font index of each page)."""
     objs: Dict[int, Any] = {1: {"Type": "Catalog", "Pages": W.Ref(2)}, 3: W.Stream({}, ALL_CODES)}
     kids = []
+    order: List[int] = []
+    frefs: List[int] = []
     n = 10
-    for fs in fss:
+    for i, fs in enumerate(fss):
         fo, fref = font_objects(fs, n)
         objs.update(fo)
+        frefs.append(fref)
         n = fref + 1
+    for i in list(range(len(fss))) + [i for i in reversed(range(len(fss))) if i % 3 == 0]:
         objs[n] = {"Type": "Page", "Parent": W.Ref(2), "Contents": W.Ref(3),
-                   "Resources": {"Font": {"F1": W.Ref(fref)}}, "MediaBox": [0, 0, 612, 792]}
+                   "Resources": {"Font": {"F1": W.Ref(frefs[i])}}, "MediaBox": [0, 0, 612, 792]}
         kids.append(W.Ref(n))
+        order.append(i)
         n += 1
     objs[2] = {"Type": "Pages", "Kids": kids, "Count": len(kids)}
-    return W.build_pdf(objs, 1)
+    return W.build_pdf(objs, 1), order
+
+
+_IMPL_DOCS = [0]
 
 
 def impl_fonts(fss: List[Dict[str, Any]]) -> List[Any]:
-    """Per font: list of 256 (text, adv) read from LTChar, or 'EXC:Type'."""
+    """Per font: list of 256 (text, adv) read from LTChar, or 'EXC:Type', or 'DIFF:revisit' when a later use of
+    the same font object gives other glyphs.  One resource manager / device / interpreter per DOCUMENT, as
+    in normal use (font caching switched on for every other document)."""
     from pdfminer.converter import PDFPageAggregator
     from pdfminer.layout import LTChar
     from pdfminer.pdfdocument import PDFDocument
     from pdfminer.pdfinterp import PDFPageInterpreter, PDFResourceManager
     from pdfminer.pdfpage import PDFPage
     from pdfminer.pdfparser import PDFParser
-    doc = PDFDocument(PDFParser(io.BytesIO(fonts_pdf(fss))))
-    out: List[Any] = []
-    for page in PDFPage.create_pages(doc):
+    pdf, order = fonts_pdf(fss)
+    doc = PDFDocument(PDFParser(io.BytesIO(pdf)))
+    _IMPL_DOCS[0] += 1
+    rm = PDFResourceManager(caching=(_IMPL_DOCS[0] % 2 == 1))
+    dev = PDFPageAggregator(rm, laparams=None)
+    interp = PDFPageInterpreter(rm, dev)
+    out: List[Any] = [None] * len(fss)
+    for k, page in enumerate(PDFPage.create_pages(doc)):
+        i = order[k]
         try:
-            rm = PDFResourceManager(caching=True)
-            dev = PDFPageAggregator(rm, laparams=None)
-            PDFPageInterpreter(rm, dev).process_page(page)
-            chars = [(c.get_text(), c.adv) for c in dev.get_result() if isinstance(c, LTChar)]
-            out.append(chars)
+            interp.process_page(page)
+            res: Any = [(c.get_text(), c.adv) for c in dev.get_result() if isinstance(c, LTChar)]
         except Exception as e:  # noqa: BLE001
-            out.append("EXC:" + type(e).__name__)
-    while len(out) < len(fss):
-        out.append("EXC:missing-page")
-    return out
+            res = "EXC:" + type(e).__name__
+        if out[i] is None:
+            out[i] = res
+        elif out[i] != res:
+            out[i] = "DIFF:revisit"
+    return [o if o is not None else "EXC:missing-page" for o in out]
 
 
 # ---------------------------------------------------------------------------------------------
@@ -1270,6 +1287,8 @@ def font_tie_only(fs: Dict[str, Any]) -> bool:
 
 def font_first_bad(fs: Dict[str, Any], got: Any) -> Optional[Tuple[int, str, Any, Any]]:
     """First code where the implementation's (text, adv) breaks the property; None when fine."""
+    if got == "DIFF:revisit":
+        return (-1, "cache", "the same glyphs as at the first use", got)
     if isinstance(got, str):
         return None if font_tie_only(fs) else (-1, "exception", "256 glyphs", got)
     if len(got) != 256:
@@ -1345,7 +1364,8 @@ def shrink_font(fs: Dict[str, Any], kind: str) -> Dict[str, Any]:
 WHAT = {"text": "simple font: text of a code is not ToUnicode entry / AGL value of its glyph name / (cid:N)",
         "width": "simple font: advance of a code is not Widths entry / standard-14 metric / MissingWidth (x scale)",
         "exception": "simple font: building or using the font raised",
-        "count": "simple font: not one glyph per shown code"}
+        "count": "simple font: not one glyph per shown code",
+        "cache": "simple font: the same font object gives different glyphs when it is used again (font cache)"}
 
 
 def check_fonts(ctx: C.Ctx, fonts: List[Tuple[Dict[str, Any], List[str]]], chunk: int = 40) -> None:
